@@ -80,20 +80,15 @@ def cop(node, memo=None):
     if name == "RenameColumnsNode":
         return "(ORename %s %s)" % (src[0], clist(["(%s, %s)" % (cstr(n), cstr(o)) for n, o in node.column_remapping.items()]))
     if name == "MapColumnsNode":
-        t = "(ORename %s %s)" % (src[0], clist(["(%s, %s)" % (cstr(n), cstr(o)) for o, n in node.column_remapping.items()]))
-        if node.column_deletions:
-            t = "(ODropCols %s %s)" % (t, sl(node.column_deletions))
-        return t
+        return "(OMapCols %s %s %s)" % (src[0], clist(["(%s, %s)" % (cstr(n), cstr(o)) for o, n in node.column_remapping.items()]), sl(node.column_deletions or []))
     if name == "OrderRowsNode":
         lim = "None" if node.limit is None else "(Some %d%%nat)" % node.limit
         return "(OOrder %s %s %s %s)" % (src[0], sl(node.order_columns), sl(node.reverse), lim)
     if name == "NaturalJoinNode":
-        if list(node.on_a) != list(node.on_b):
-            raise Unsupported("differently named join keys")
-        jt = {"INNER": "JInner", "LEFT": "JLeft", "RIGHT": "JRight", "FULL": "JFull", "OUTER": "JFull"}.get(node.jointype)
-        if jt is None:
+        jt = {"INNER": "JInner", "LEFT": "JLeft", "RIGHT": "JRight", "FULL": "JFull", "OUTER": "JFull", "CROSS": "JInner"}.get(node.jointype)
+        if jt is None or (node.jointype == "CROSS" and node.on_a):
             raise Unsupported("join type " + node.jointype)
-        return "(OJoin %s %s %s %s)" % (src[0], src[1], sl(node.on_a), jt)
+        return "(OJoin %s %s %s %s %s)" % (src[0], src[1], sl(node.on_a), sl(node.on_b), jt)
     if name == "ConcatRowsNode":
         idc = "None" if node.id_column is None else "(Some %s)" % cstr(node.id_column)
         return "(OConcat %s %s %s %s %s)" % (src[0], src[1], idc, cstr(node.a_name), cstr(node.b_name))
@@ -111,10 +106,10 @@ def cenv(frames):
     return clist(["(%s, %s)" % (cstr(k), ctable(v)) for k, v in frames.items()])
 
 
-def case_term(ops, frames, result, *, ordered=False, colorder=False, nullmatch=False):
-    """nullmatch=True: compare against the model with pandas.merge's null-key rule (nulls match)"""
+def case_term(ops, frames, result, *, ordered=False, colorder=False, flavor="fl_pandas"):
+    """flavor: fl_pandas | fl_sqlite | fl_postgres | fl_polars | fl_spec  (conventions the model is evaluated under)"""
     obs = "None" if result is None else "(Some %s)" % ctable(result)
-    return "mkcase %s %s %s %s %s %s" % (cop(ops), cenv(frames), obs, cbool(ordered), cbool(colorder), cbool(nullmatch))
+    return "mkcase %s %s %s %s %s %s" % (cop(ops), cenv(frames), obs, cbool(ordered), cbool(colorder), flavor)
 
 
 PREAMBLE = ("From Coq Require Import List Bool ZArith QArith String.\nImport ListNotations.\nOpen Scope string_scope.\n"
